@@ -15,10 +15,23 @@ def run(ctx):
     ok, out = ctx.run_harness(b, [tr, ctx.tier], tr)
     if ok:
         ctx.validate(TRACE_MODULE, tr, label="pure")
+    # the same harness on the aligned qualifiers in intrinsic builds: the vector side runs GLM's SIMD kernels, the scalar side the scalar overloads
+    simd = ["-DC01_ALIGNED", "-DGLM_FORCE_INTRINSICS", "-DGLM_FORCE_ALIGNED_GENTYPES"]
+    for name, flags in ([("sse2", ["-msse2"])] if ctx.quick else [("sse2", ["-msse2"]), ("sse4.1", ["-msse4.1"]), ("avx2", ["-mavx2", "-mfma"])]):
+        ba = ctx.build("c01-aligned-" + name.replace(".", ""), "c01.cpp", flags=flags + simd, opt="-O0", label="c01 aligned " + name)
+        if not ba:
+            continue
+        tra = ctx.scratch.path("c01-%s.ndjson" % name)
+        ok, out = ctx.run_harness(ba, [tra, ctx.tier], tra)
+        if ok:
+            ctx.validate(TRACE_MODULE, tra, label="aligned-" + name)
     ctx.rule("every component-wise function and operator of common / exponential / trigonometric / relational / ext twins / component_wise "
              "reductions / matrix abs+mix, for float, double and eight integer types, vector lengths 1-4, three qualifiers rotated over the "
              "special-value lattice (+-0, subnormals, ties, 2^23, 2^31, max, inf, quiet and signalling NaN) and moderate values; overload shapes vv, "
              "vs, sv, vec1, compound and aliasing forms; each vector result compared by TLC with what the scalar overload returned per component",
              exhaustive=False)
+    ctx.rule("the same calls on aligned_highp / aligned_mediump / aligned_lowp in intrinsic builds (SSE2; SSE4.1 and AVX2+FMA thorough): GLM's SIMD kernels on the "
+             "vector side against the scalar overloads; there lowp float division / sqrt / inversesqrt are hardware approximations (2^-8 on moderate operands), "
+             "functions GLM derives from them are unconstrained for lowp, min / max / clamp on NaN operands are outside the domain and zero signs are free", exhaustive=False)
     ctx.assumptions += ["components that see a signalling NaN are outside the domain of the fmin/fmax/fclamp families",
                         "the scalar side is the scalar overload evaluated by the same build (relational property)"]
